@@ -108,10 +108,10 @@ func (r *run) relabel() {
 		return
 	}
 	tag := ""
-	if r.sc.Profile == "connect" && r.malformedAccepted {
+	if r.sc.Profile == "connect" && r.malformedAccepted != "" {
 		// the session, subscriptions and publishes of a connection that was
 		// accepted on a malformed CONNECT are not in the model
-		tag = "/malformed-connect-accepted"
+		tag = "/malformed-connect-accepted" + r.malformedAccepted
 	}
 	if r.sc.Profile == "session" && r.m != nil && len(r.m.racedIDs()) > 0 {
 		// some identifier reconnected while its old connection was still being
@@ -1408,7 +1408,12 @@ func (r *run) checkConnect(m *Model) {
 			// must not be accepted, must not get anything but an optional CONNACK
 			if ack != nil && ack.Code == 0 {
 				r.viol("C11", "first-packet", "C11/accepted/"+class, "connection %d sent %s as its first packet and was accepted with CONNACK code 0", c.Idx, describeFirst(c))
-				r.malformedAccepted = true
+				if r.malformedAccepted == "" {
+					r.malformedAccepted = strings.TrimPrefix(class, "malformed-connect")
+					if r.malformedAccepted == "" {
+						r.malformedAccepted = "/unclassified"
+					}
+				}
 				continue // what follows on this connection is a consequence
 			}
 			if nonAck > 0 {
@@ -1538,6 +1543,14 @@ func connectDefect(raw []byte) string {
 	}
 	if i != len(b) {
 		return "trailing-bytes"
+	}
+	if _, _, err := refmqtt.Parse(raw); err != nil {
+		switch {
+		case strings.Contains(err.Error(), "UTF-8"):
+			return "string-not-utf8"
+		case strings.Contains(err.Error(), "U+0000"):
+			return "string-with-nul"
+		}
 	}
 	return "other"
 }
